@@ -284,10 +284,12 @@ class SimpleCorr:
 
     def gen_blocks(self, pid, d, tier, seed):
         blocks = []
-        cdir = os.path.join(vlib.VERIF, "corpus", self.corpus or self.kind)
-        if os.path.isdir(cdir):
-            for f in sorted(os.listdir(cdir)):
-                blocks += vlib.read_blocks(os.path.join(cdir, f))
+        # corpus/<kind>/ runs for every property decided through this kind, corpus/<kind>.<pid>/ for that property only
+        for cdir in (os.path.join(vlib.VERIF, "corpus", self.corpus or self.kind),
+                     os.path.join(vlib.VERIF, "corpus", (self.corpus or self.kind) + "." + pid)):
+            if os.path.isdir(cdir):
+                for f in sorted(os.listdir(cdir)):
+                    blocks += vlib.read_blocks(os.path.join(cdir, f))
         self.ncorpus = len(blocks)
         gen = os.path.join(d, "gen.cases")
         for tail in self.gen_cmds(seed, tier):
@@ -1638,7 +1640,7 @@ class CrossFormat(ImplOracleProperty):
         translate.regenerate_all(required=True)
 
     def stages(self, pid, out, tier, seed, d):
-        lines, bmap, st, _ = xml_oracle_stage(pid, d, seed, tier, [("bin", 500), ("dom", 300)])
+        lines, bmap, st, _ = xml_oracle_stage(pid, d, seed, tier, [("bin", 500), ("dom", 300), ("schema", 797)])
         out.coverage["generator"] = {k: v for k, v in st.items() if k.startswith("c06") or k.startswith("oracle_C06") or k == "cases"}
         return [("cross-format run (xmlfile-run, stream bin)", lines, bmap, "xmlfile", st.get("c06_checked", len(bmap)))]
 
